@@ -535,7 +535,7 @@ class SCML_Supervised(_BaseSCML, TransformerMixin):
     self : object
       Returns the instance.
     """
-    X, y = self._prepare_inputs(X, y, ensure_min_samples=2)
+    X, y = self._prepare_inputs(X, y, dtype=float, ensure_min_samples=2)
 
     basis, n_basis = self._initialize_basis_supervised(X, y)
 
